@@ -40,7 +40,7 @@ func parallel(n int, fn func(i int)) {
 			defer wg.Done()
 			for i := range ch {
 				if !evid.IsSaturated() {
-					guard(i, fn)
+					watchedCase(i, fn)
 				}
 			}
 		}()
@@ -50,6 +50,67 @@ func parallel(n int, fn func(i int)) {
 	}
 	close(ch)
 	wg.Wait()
+}
+
+// watchedCase runs one case on its own goroutine. In-process monitors call into the library without the
+// state-based hang detectors of the child-process monitors; a defect that makes an operation block for ever
+// would otherwise leave the whole check without a verdict. If the case has not returned after caseLimit, the
+// stack of ITS goroutine is looked at twice, a minute apart: the same library frame in the same wait state both
+// times is reported as a violation (the operation never returns); anything else is inconclusive. Either way the
+// case is abandoned and the check goes on.
+const caseLimit = 6 * time.Minute
+
+func watchedCase(i int, fn func(i int)) {
+	done := make(chan struct{})
+	gidc := make(chan string, 1)
+	go func() {
+		defer close(done)
+		gidc <- goid()
+		guard(i, fn)
+	}()
+	gid := <-gidc
+	select {
+	case <-done:
+		return
+	case <-time.After(caseLimit):
+	}
+	stackOf := func() string {
+		for _, g := range strings.Split(goroutineDump(), "\n\n") {
+			if strings.HasPrefix(g, "goroutine "+gid+" [") {
+				return g
+			}
+		}
+		return ""
+	}
+	top := func(st string) string { // wait state + innermost library frame
+		lines := strings.Split(st, "\n")
+		state := lines[0]
+		if k := strings.Index(state, ","); k > 0 { // drop ", N minutes"
+			state = state[:k] + "]"
+		}
+		for _, l := range lines[1:] {
+			if strings.Contains(l, "berty.tech/go-ipfs-log") {
+				return state + " " + strings.TrimSpace(l)
+			}
+		}
+		return state
+	}
+	s1 := stackOf()
+	select {
+	case <-done:
+		return
+	case <-time.After(time.Minute):
+	}
+	s2 := stackOf()
+	if CurrentRun == nil {
+		return
+	}
+	if s1 != "" && top(s1) == top(s2) && waitingState.MatchString(s2) && strings.Contains(s2, "berty.tech/go-ipfs-log") {
+		CurrentRun.Violate(CurrentRun.Prop+"/operation-never-returns", det("blocked_in", top(s2)), map[string]any{"case": i, "goroutine": clipStr(s2, 6000)},
+			"case %d called into the library %v ago and the call has not returned: its goroutine sits in the same wait state inside the library (%s)", i, caseLimit+time.Minute, top(s2))
+	} else {
+		CurrentRun.Inconclusive(fmt.Sprintf("case %d did not finish within %v (no stable wait state inside the library): abandoned", i, caseLimit+time.Minute))
+	}
 }
 
 // CurrentRun is the run of the in-process check; a panic inside a case is turned
